@@ -21,7 +21,9 @@ func init() {
 }
 
 var c16Relay = []string{"", "", "/app", `"quoted"`, `'single'`, `"><script>alert(1)</script>`, `' onmouseover='x`, `" onfocus="alert(1)" autofocus="`, `</form><form action="https://evil.test">`, `</script><script>evil()</script>`,
-	`<img src=x onerror=alert(1)>`, `a&b`, `&amp;`, `&lt;script&gt;`, `&#x22;`, `&quot`, "line1\nline2", "two\n\nlines\n", "tab\there", "Jürgen 日本語", "😀", "`backtick`", `\"escaped\"`, `{{.URL}}`, `{{template "x"}}`, `<!--`, `-->`, `]]>`, `<![CDATA[`, "  ", "\x7f\x1f\x01", "\u0085", "=", " ", "  lead", "%22%3E"}
+	`<img src=x onerror=alert(1)>`, `a&b`, `&amp;`, `&lt;script&gt;`, `&#x22;`, `&quot`, "line1\nline2", "two\n\nlines\n", "tab\there", "Jürgen 日本語", "😀", "`backtick`", `\"escaped\"`, `{{.URL}}`, `{{template "x"}}`, `<!--`, `-->`, `]]>`, `<![CDATA[`, "  ", "\x7f\x1f\x01", "\u0085", "=", " ", "  lead", "%22%3E",
+	// white-space characters next to other control characters, character references next to markup
+	"v1\tuser=alice\x1fsession=42\treturn=/home", "page 1\n\x0cpage 2", "\t\x01", "a\nb\x7f\tc", "\x1e\n", "\u0080\t\u009f", "a&amp;b&#34;c&copy=1", "?id=3&region=eu&copy=1&lt=2", "&#x3c;b&#62;"}
 
 type htok struct {
 	typ   html.TokenType
